@@ -1,5 +1,21 @@
 from ckl.errors import CklSyntaxError
 
+
+def decimal_digits(value):
+    # the host renders only a limited number of digits in one piece: a
+    # long hex or binary literal is as good as the decimal one
+    try:
+        return str(value)
+    except ValueError:
+        base = 10 ** 600
+        pieces = []
+        while value >= base:
+            value, piece = divmod(value, base)
+            pieces.append(str(piece).zfill(600))
+        pieces.append(str(value))
+        return "".join(reversed(pieces))
+
+
 KEYWORDS = [
     "if",
     "then",
@@ -472,7 +488,7 @@ class Lexer:
                             "Hex int literal without digits", here
                         )
                     try:
-                        token = str(int(token.replace("_", ""), 16))
+                        token = decimal_digits(int(token.replace("_", ""), 16))
                     except ValueError:
                         raise CklSyntaxError("Invalid hex int literal", here)
                     self.tokens.append(Token(token, "int", here))
@@ -494,7 +510,7 @@ class Lexer:
                             "Binary int literal without digits", here
                         )
                     try:
-                        token = str(int(token.replace("_", ""), 2))
+                        token = decimal_digits(int(token.replace("_", ""), 2))
                     except ValueError:
                         raise CklSyntaxError("Invalid binary int literal", here)
                     self.tokens.append(Token(token, "int", here))
